@@ -186,6 +186,7 @@ class Interp:
 
     # ------------------------------------------------------------------ decisions
     def decide(self, tag: str) -> bool:
+        self._decide_calls = getattr(self, "_decide_calls", 0) + 1
         if tag in self.val:
             return self.val[tag]
         if self._tentative is not None:
@@ -2260,8 +2261,11 @@ class Interp:
             n_iter, unknown = 0, 0
             broke = False
             while True:
+                before_ = getattr(self, "_decide_calls", 0)
                 t = self.ev(s.test, env)
-                if not isinstance(t, Const):
+                if not isinstance(t, Const) or getattr(self, "_decide_calls", 0) != before_:
+                    # unknown, or a constant that is only a decision about an unknown (the same question gets the same answer on
+                    # every iteration: the loop would never end)
                     unknown += 1
                     if unknown > 2:
                         break
